@@ -186,7 +186,7 @@ class Evaluator:
 
     def n_vnew(self):
         n = 0
-        for major, cnt in self.major_counts.items():
+        for major, cnt in getattr(self, "pool_counts", self.major_counts).items():
             for minor in self.gene.alleles[major].minors:
                 n += cnt * len(self.addable(major, minor))
         return n
@@ -220,6 +220,17 @@ class Evaluator:
                     return "allele reported to carry a variant without supporting reads"
             per = Counter(m.pos for m in self.carried((major, minor, keep, add)))
             if any(v > 1 for v in per.values()):
+                # mechanism-based label for the recorded finding: the only doubly occupied positions hold one
+                # insertion and one substitution on the insertion's anchor base, the substitution being on every
+                # copy of the sample (read-out post-processing adds such a variant to all alleles)
+                self.last_kind = None
+                dbl = [p_ for p_, v_ in per.items() if v_ > 1]
+                car = self.carried((major, minor, keep, add))
+                maxcn = self.cn.max_cn()
+                if all(sorted(m.op[:3] == "ins" for m in car if m.pos == p_) == [False, True]
+                       and all(abs(self.obs[m] - maxcn) <= 1e-5 and m in add
+                               for m in car if m.pos == p_ and m.op[:3] != "ins") for p_ in dbl):
+                    self.last_kind = "substitution-on-insertion-anchor-added-by-homozygous-read-out"
                 return "an allele carries two variants at one position"
         carriers = Counter()
         for e in assign:
@@ -544,7 +555,16 @@ def run_case(case, seg, viol, stats, sample):
             return cond
 
         fcov = cov.filtered(Coverage.quality_filter).filtered(flt)
-        return sols, Evaluator(gene_ref, fcov, major, mutations, profile)
+        ev_ = Evaluator(gene_ref, fcov, major, mutations, profile)
+        # the pool the tie-breaker runs over: the alleles of every candidate of the call
+        ev_.pool_counts = Counter()
+        for mj in majors:
+            c_ = Counter()
+            for a, n in mj.solution.items():
+                c_[a.major] += n
+            for k_, v_ in c_.items():
+                ev_.pool_counts[k_] = max(ev_.pool_counts[k_], v_)
+        return sols, ev_
 
     def judge_solution(sols, ev, mode_name):
         if len(sols) > 1:
@@ -555,9 +575,10 @@ def run_case(case, seg, viol, stats, sample):
             assign = _assignment(ev, s)
             d = dict(detail0, solver=mode_name, score=s.score,
                      refinement=[[a.major, a.minor, [list(m) for m in a.added], [list(m) for m in a.missing]] for a in s.solution])
+            ev.last_kind = None
             bad = ev.rules(assign)
             if bad:
-                viol.append({"clause": bad, "detail": d})
+                viol.append({"clause": bad, "detail": dict(d, kind=ev.last_kind) if ev.last_kind else d})
                 continue
             if any(a.added for a in s.solution):
                 stats["added"] += 1
